@@ -417,7 +417,7 @@ class StringMagic:
     def PADLEFT(self, args):
         original_string = args[0]
         try:
-            width = int(args[1])
+            width = min(int(args[1]), 500)  # MediaWiki pads to at most 500 characters
         except ValueError:
             return original_string
 
@@ -435,7 +435,7 @@ class StringMagic:
     def PADRIGHT(self, args):
         original_string = args[0]
         try:
-            width = int(args[1])
+            width = min(int(args[1]), 500)  # MediaWiki pads to at most 500 characters
         except ValueError:
             return original_string
 
